@@ -4,11 +4,11 @@
 W=$1
 cd $W || exit 2
 [ -f patch.diff ] || exit 2
-git checkout -q -- src && git apply patch.diff || exit 2
+git reset -q && git checkout -q -- src && git clean -fdq src && git apply patch.diff || exit 2
 mkdir -p /tmp/seedhold && mv tests/seed_demo.rs /tmp/seedhold/seed_demo.rs
 echo "== suite with change"; cargo test --workspace --no-fail-fast --offline 2>&1 | grep -E "^test result" | awk '{p+=$4; f+=$6} END {print "passed",p,"failed",f}'
 mv /tmp/seedhold/seed_demo.rs tests/seed_demo.rs
 echo "== demo with change"; cargo test --offline --test seed_demo 2>&1 | grep -E "^test result|error(\[|:)" | head -3
-git apply -R patch.diff
+git apply -R patch.diff; git clean -fdq src
 echo "== demo without change"; cargo test --offline --test seed_demo 2>&1 | grep -E "^test result|error(\[|:)" | head -3
 git apply patch.diff
